@@ -437,6 +437,6 @@ int main(int argc, char **argv)
     if (std::string(argv[i]) == "--tier" && std::string(argv[i + 1]) == "thorough")
       thorough = true;
   if (!getenv("C03_DEPTH"))
-    setenv("C03_DEPTH", thorough ? "7" : "5", 1);
+    setenv("C03_DEPTH", thorough ? "6" : "5", 1); // depth 7 (4.8 M histories) does not finish inside the thorough budget; depth 6 does
   return mc_main(argc, argv, "C03_sync_receive", v);
 }
